@@ -105,6 +105,10 @@ DEAD_ARM_TEMPLATES = [
     "{ RdV = RsV; ReV = 1 ? 2 : RsV; }", "{ ReV = 1 ? 2 : RsV; RdV = RsV; }", "{ RdV = 1 ? RsV : (RsV + RtV); }",
     "{ RdV = 0 ? clz32(RsV) : RtV; }", "{ RdV = 1 ? RtV : ({ int32_t q = RsV; q; }); }", "{ int32_t a = RsV; RdV = 0 ? a : 5; ReV = a; }",
     "{ RdV = (2 > 1) ? siV : uiV; ReV = uiV; }", "{ RdV = sizeof(RsV) ? RtV : RsV; }",
+    # the dead operand is also an operand of the operation the ?: belongs to (built after the fold)
+    "{ RdV = RtV + (0 ? RtV : RuV); }", "{ RdV = RsV + (1 ? 4 : RsV); }", "{ mem_store_u32(RsV, (1 ? RtV : RsV)); }",
+    "{ RdV = (RsV ? RtV : (0 ? RtV : RuV)); }", "{ RdV = ((2 > 1) ? RsV : RtV) + ((1 > 2) ? RsV : RtV); }",
+    "{ RdV = siV + (1 ? 4 : siV); }", "{ RdV = (0 ? RsV : 3) + RsV; }", "{ if (RsV > (1 ? 2 : RsV)) { RdV = 1; } }",
 ]
 # conditions whose value is known at compile time but is not a bare literal: a fold must use the *converted* value
 CONST_CONDS = ["((uint8_t) 0x100)", "((int8_t) 0x100)", "((uint8_t) 0x101)", "((int16_t) 0x10000)", "((uint16_t) 0x18000)",
